@@ -285,7 +285,7 @@ def conc_case(draw):
             init.append((k, 7))
         elif choice == 'file':
             init.append((k, ('B', 250 if k == 'x' else 251)))
-    schedule = draw(st.lists(st.tuples(st.integers(0, n - 1), st.integers(1, 8)), max_size=14))
+    schedule = draw(st.lists(st.tuples(st.integers(0, n - 1), st.one_of(st.integers(1, 8), st.sampled_from([12, 16, 24, 40]))), max_size=14))
     return {'init': init, 'progs': progs, 'schedule': schedule}
 
 
